@@ -106,6 +106,15 @@ class GateDef:
 
 
 @dataclass
+class IdleGateDef(GateDef):
+    """Definition of a QASM gate that waits, e.g. qelib1's u0(gamma)."""
+
+    def build_op(self, loc: CircuitLocation, params: list[float]) -> Operation:
+        """Build an operation for this gate; the durations are dropped."""
+        return Operation(self.gate, loc)
+
+
+@dataclass
 class CustomGateDef:
     """Definition of a Custom QASM Gate."""
 
@@ -230,7 +239,7 @@ class OPENQASMVisitor(Visitor):
         self.gate_defs['ecr'] = GateDef('ecr', 0, 2, ECRGate())
         self.gate_defs['h'] = GateDef('h', 0, 1, HGate())
         self.gate_defs['id'] = GateDef('id', 0, 1, IdentityGate(1))
-        self.gate_defs['u0'] = GateDef('u0', 0, 1, IdentityGate(1))
+        self.gate_defs['u0'] = IdleGateDef('u0', 1, 1, IdentityGate(1))
         self.gate_defs['iswap'] = GateDef('iswap', 0, 2, ISwapGate())
         self.gate_defs['iccx'] = GateDef('iccx', 0, 3, IToffoliGate())
         self.gate_defs['s'] = GateDef('s', 0, 1, SGate())
